@@ -2,7 +2,7 @@
    Writer model: write_volume / par1_outputs (par1/volume.go, encoder.go); reader model: read_volume,
    p1_load (volume.go, decoder.go). *)
 From Gopar Require Import Model.Base Model.Matrix Model.GF8 Model.CRC Model.GoPath Model.FS Model.Par1
-     Proofs.LinAlg Proofs.GF8Facts Proofs.Par1Facts.
+     Proofs.LinAlg Proofs.GF8Facts Proofs.Par1Facts Proofs.Utf16Facts.
 Open Scope N_scope.
 
 (* parity volume v (numbered from 1; row v-1) holds, byte by byte, the sum over files i (numbered from 1)
@@ -45,6 +45,13 @@ Theorem C10_volume_round_trip : forall md5, (forall x, length (md5 x) = 16%nat) 
             v_sethash v = md5 (flat_map (fun e => if saved e then e_hash e else []) entries).
 Proof. exact volume_round_trip. Qed.
 Print Assumptions C10_volume_round_trip.
+
+(* UTF-16LE file names: for EVERY name that is the UTF-8 encoding of Unicode scalar values (BMP and
+   astral alike) the entry codec round-trips: decode (encode name) = name *)
+Theorem C10_name_codec : forall rs, Forall scalar rs ->
+  let name := flat_map utf8_encode_rune rs in decode_utf16le (encode_utf16le name) = name.
+Proof. exact name_codec_round_trip. Qed.
+Print Assumptions C10_name_codec.
 
 (* UTF-16LE entries: a name needing a surrogate pair round-trips through the codec *)
 Theorem C10_utf16_example :
